@@ -2,6 +2,7 @@
 //! real num-bigint built from /repo's working tree and prints one canonical result line each.
 mod wire;
 mod c01;
+mod c15;
 
 use std::io::{BufRead, Write};
 use std::panic;
@@ -9,7 +10,10 @@ use std::panic;
 type Handler = fn(&str, &[&str]) -> Option<String>;
 
 fn handlers() -> Vec<(&'static str, Handler)> {
-    vec![("C01", c01::handle as Handler)]
+    vec![
+        ("C01", c01::handle as Handler),
+        ("C15", c15::handle as Handler),
+    ]
 }
 
 fn main() {
